@@ -412,6 +412,9 @@ func c19Immutability(c *core.Ctx) {
 			f(progenum.Case{Family: "share", Name: sp.name, Src: sp.src})
 		}
 	}
+	for _, sp := range c19CmdPrograms {
+		f(progenum.Case{Family: "share-cmd", Name: sp.name, Src: sp.src})
+	}
 	progenum.EnumMisc(c.Thorough(), f)
 	progenum.EnumBuiltins(c.Thorough(), f)
 	progenum.EnumCalls(c.Thorough(), f)
@@ -443,10 +446,21 @@ var c19SharePrograms = []struct{ name, src string }{
 	{"exit", `{ if (NR == 2) exit 3; print }`},
 }
 
+// c19CmdPrograms start real child processes through the default shell (only in
+// the immutability part and in the free-running race pass: a few runs each).
+var c19CmdPrograms = []struct{ name, src string }{
+	{"system", `{ r = system("true " $1); s = s r } END { print s }`},
+	{"cmd-getline", `{ ("echo g" $1) | getline v; close("echo g" $1); print v }`},
+	{"print-pipe", `{ print $2 | "cat >/dev/null" } END { print close("cat >/dev/null") }`},
+}
+
 // C19ShareSources is used by cmd/vrace (free-running -race pass).
 func C19ShareSources() []string {
 	var out []string
 	for _, sp := range c19SharePrograms {
+		out = append(out, sp.src)
+	}
+	for _, sp := range c19CmdPrograms {
 		out = append(out, sp.src)
 	}
 	return out
@@ -633,7 +647,7 @@ func init() {
 		ID:    "C19",
 		Level: "model_checking",
 		Rule: "(1) map orders: for programs with 2-3 independent type errors (all such subsets of 9 error items), call-graph shapes, native+AWK function mixes and the repository's own sources, every map-range site executed by the resolver/compiler during ParseProgram is a choice point over a permutation menu (all n! for n<=3, else identity/reverse/rotations/adjacent swaps); all parses with <=1 (thorough <=2) non-sorted site executions; verdict, message+position, compiled code, constants, function table, printed source and disassembly must equal the sorted-order parse; " +
-			"(2) immutability: reflective deep dump of everything reachable from the *parser.Program (exported and unexported fields, spare slice capacity, compiled regexes) before = after two rounds of executions (including failing ones; second round with the inputs in the other order), and the deep dump of every package-level variable of the goawk packages after round 1 = after round 2, for the sharing programs and the C01 misc/builtins/calls/control space; the second round's results equal the first; " +
+			"(2) immutability: reflective deep dump of everything reachable from the *parser.Program (exported and unexported fields, spare slice capacity, compiled regexes) before = after two rounds of executions (including failing ones; second round with the inputs in the other order), and the deep dump of every package-level variable of the goawk packages after round 1 = after round 2, for the sharing programs, 3 programs that start child processes through the default shell, and the C01 misc/builtins/calls/control space; the second round's results equal the first; " +
 			"(3) sharing: 2 and 3 interpreters over one Program as cooperative threads yielding at every VM instruction, all interleavings with <=2 preemptions (3 interpreters: 1 in quick), each interpreter's result must equal its single run; state = one program, transition = one parse order / execution / schedule",
 		Assumptions: []string{
 			"Go map iteration order is owned through the overlay's rewrite of every map range to vhook.Keys; orders explored are a menu per site execution, not all n! for n>3",
